@@ -18,7 +18,11 @@ META = {
         "once-only resolver, constant-folded over the static registry with attrs.has / attrs.resolve_types "
         "stubbed, visits every attrs class of the registry with the registry as namespace. (3) Class-keyed "
         "(non-union) hooks are only the identity hooks for NoneType and LSPObject. Non-union positions are "
-        "well-typed by cattrs' generated structure functions (axiom A3)."),
+        "well-typed by cattrs' generated structure functions (axiom A3)."
+        " Added clauses: every paired position is annotated with the metamodel type under the documented mapping (the site "
+        "analysis trusts annotations); the two base-protocol classes have the JSON-RPC shape (error: ResponseError, not LSPAny); "
+        "None returned for a value of a non-nullable union is ill-typed; try/except fallbacks in hooks are judged by whether "
+        "the body raises for the value at hand."),
     "trusted_base": ["A1 dispatch", "A3 generated structure functions convert every field by its resolved annotation",
                      "attrs.resolve_types evaluates ForwardRefs in the given namespace"],
     "assumptions": ["input is metamodel-valid for the alternative analysed"],
